@@ -303,6 +303,7 @@ fn gen_wtrace(rng: &mut Rng, faults: bool) -> WTrace {
                 0..=11 => rng.urange(2, 5),
                 12 => rng.urange(6, 40),
                 13 if rng.chance(1, 3) => rng.urange(41, 300),
+                14 if rng.chance(1, 24) => *rng.pick(&[1001usize, 1025, 1100, 4097, 10_001, 65_537, 70_000]),
                 _ => 1,
             };
             for _ in 0..burst {
